@@ -50,6 +50,10 @@ pub struct StackCase {
     /// the same client: with keep-alive / HTTP/2 they travel on the connection of the first one
     #[serde(default)]
     pub extra: Vec<u8>,
+    /// order of the client builder calls: 0 = transport, protocol, then TLS and pool; 1 = TLS and pool
+    /// first, then every call that rebuilds the builder - the TLS setting must survive all of them
+    #[serde(default)]
+    pub builder_order: u8,
 }
 
 impl StackCase {
@@ -211,6 +215,16 @@ impl Engine for StackEngine {
                 let server = tokio::spawn(async move { server.await.map_err(|e| e.to_string()) });
 
                 let make_client = |wire: Arc<Mutex<Vec<u8>>>| {
+                    if c2.builder_order % 2 == 1 {
+                        return hyperdriver::Client::builder()
+                            .with_tls(client_config(c2.alpn))
+                            .with_default_pool()
+                            .with_body::<hyperdriver::Body, hyperdriver::Body>()
+                            .with_transport(RecTransport { client: client.clone(), wire })
+                            .with_auto_http()
+                            .without_redirects()
+                            .build_service();
+                    }
                     hyperdriver::Client::builder()
                         .with_transport(RecTransport { client: client.clone(), wire })
                         .with_auto_http()
@@ -281,7 +295,7 @@ impl Engine for StackEngine {
                 let probe_svc = make_client(probe_wire);
                 let probe_req = http::Request::builder().method("POST").uri("https://example.com/probe").body(hyperdriver::Body::from(SECRET.to_vec())).unwrap();
                 // the probe's body must match what the handler expects for body_ok bookkeeping only
-                let probe = if c2.alpn & 1 != 0 && c2.alpn & 2 == 0 && c2.alpn & 4 == 0 && c2.alpn & 8 != 0 || c2.alpn & 2 != 0 && c2.alpn & 1 == 0 && c2.alpn & 8 == 0 && c2.alpn & 4 != 0 {
+                let probe = if crate::engines::tlswire::alpn_outcome(c2.alpn) == crate::engines::tlswire::AlpnOutcome::Conflict {
                     None // ALPN offers without overlap: rustls refuses every handshake
                 } else {
                     Some(send(probe_svc, probe_req).await.map(|r| r.0))
@@ -307,10 +321,16 @@ impl Engine for StackEngine {
         let wire = wire.lock().unwrap().clone();
         let seen = seen.lock().unwrap().clone();
         let sni = sni_seen.lock().unwrap().clone();
-        let (c_h2, c_h1, s_h2, s_h1) = (c.alpn & 1 != 0, c.alpn & 2 != 0, c.alpn & 4 != 0, c.alpn & 8 != 0);
-        let alpn_conflict = (c_h2 || c_h1) && (s_h2 || s_h1) && !((c_h2 && s_h2) || (c_h1 && s_h1));
-        let negotiated_h2 = c_h2 && s_h2;
-        let negotiated_h1_only = !negotiated_h2 && c_h1 && s_h1;
+        use crate::engines::tlswire::{alpn_outcome, AlpnOutcome};
+        let outcome = alpn_outcome(c.alpn);
+        let alpn_conflict = outcome == AlpnOutcome::Conflict;
+        let negotiated_h2 = outcome == AlpnOutcome::Proto(b"h2");
+        let negotiated_h1_only = outcome == AlpnOutcome::Proto(b"http/1.1");
+        // a protocol id that is neither h2 nor http/1.1 (here "h3"): says nothing about HTTP/2
+        let negotiated_other = matches!(outcome, AlpnOutcome::Proto(p) if p != b"h2" && p != b"http/1.1");
+        if negotiated_other {
+            rep.class("alpn-negotiated-other-protocol");
+        }
         let desc = format!("{c:?} (authority {authority}): results {results:?}, handler saw {seen:?}, SNI {sni:?}, {} bytes on the wire, server alive {server_alive}, probe {probe:?}", wire.len());
 
         // ---- C09: the TLS listener survives every per-connection fault
@@ -386,7 +406,8 @@ impl Engine for StackEngine {
                     let fine = matches!(result, Ok((200, true))) && reached.is_some();
                     if !fine {
                         connection_unbroken = false;
-                        let must_succeed = in_san && !alpn_conflict && !proto_conflict && !host_hdr_mismatch;
+                        // an HTTP/2 request on a connection that negotiated some other protocol id: unconstrained
+                        let must_succeed = in_san && !alpn_conflict && !proto_conflict && !host_hdr_mismatch && !(c.h2 && negotiated_other);
                         // IP-literal hosts carry no server name: the SNI middleware rejects them (missing SNI)
                         if must_succeed && !is_ip {
                             rep.violate("C20/fullstack-rejected-although-host-matches", rdesc.clone());
@@ -435,12 +456,13 @@ pub fn strategy() -> impl proptest::strategy::Strategy<Value = StackCase> {
         0u8..8,
         prop_oneof![2 => Just(None), 1 => Just(Some(443u16)), 1 => Just(Some(8443u16))],
         any::<bool>(),
-        0u8..16,
+        prop_oneof![3 => 0u8..16, 2 => 16u8..64],
         prop_oneof![4 => Just(0u8), 1 => Just(1u8), 2 => Just(2u8), 1 => Just(3u8)],
         prop_oneof![6 => Just(0u8), 1 => Just(1u8), 1 => Just(2u8), 1 => Just(3u8)],
         prop_oneof![Just(0u16), 1u16..200, 200u16..20000],
         any::<bool>(),
         prop_oneof![2 => Just(vec![]), 3 => proptest::collection::vec(prop_oneof![3 => Just(0u8), 1 => Just(1u8), 2 => Just(2u8), 1 => Just(3u8)], 1..5)],
+        0u8..2,
     )
-        .prop_map(|(host, port, h2, alpn, host_header, mode, body, second_request, extra)| StackCase { host, port, h2, alpn, host_header, mode, body, second_request, extra })
+        .prop_map(|(host, port, h2, alpn, host_header, mode, body, second_request, extra, builder_order)| StackCase { host, port, h2, alpn, host_header, mode, body, second_request, extra, builder_order })
 }
